@@ -486,8 +486,14 @@ func c04Fanout(a *Anchors, r *core.Report) {
 				}
 			case callsNamed(in, "sendExitMessage"):
 				nExit++
+				if idx, ok := elemOfResult(cc.Args[2], "CleanupTarget"); !ok || idx != 0 {
+					probs = append(probs, "the exit is not addressed to each element of the link-consumer list CleanupTarget returned (whole list, first result)")
+				}
 			case callsNamed(in, "RouteSendPID"):
 				nDown++
+				if idx, ok := elemOfResult(cc.Args[2], "CleanupTarget"); !ok || idx != 1 {
+					probs = append(probs, "the down message is not addressed to each element of the monitor-consumer list CleanupTarget returned (whole list, second result)")
+				}
 				// options: Priority High
 				if ld, ok := cc.Args[3].(*ssa.UnOp); ok {
 					if cell, ok := ld.X.(*ssa.Alloc); ok {
@@ -582,6 +588,45 @@ func c04Fanout(a *Anchors, r *core.Report) {
 			r.OK(rule, key, fn, a.P.Pos(f.Pos()), inst, "1 drain, 1 exit site, 1 down site (High), 1 frame site, 2 literals with target and reason")
 		}
 	}
+}
+
+// elemOfResult: v is the loop variable of a range over the idx-th result of a call to callName
+// (v = *(&result[i])), the list being used whole — no re-slicing, no other list.
+func elemOfResult(v ssa.Value, callName string) (int, bool) {
+	ld, ok := v.(*ssa.UnOp)
+	if !ok || ld.Op != token.MUL {
+		return 0, false
+	}
+	if cell, isCell := ld.X.(*ssa.Alloc); isCell {
+		// the loop variable lives in a local cell: every store to it must be such an element
+		idx, n := -1, 0
+		for _, rf := range *cell.Referrers() {
+			st, isSt := rf.(*ssa.Store)
+			if !isSt || st.Addr != ssa.Value(cell) {
+				continue
+			}
+			i, ok2 := elemOfResult(st.Val, callName)
+			if !ok2 || (idx >= 0 && i != idx) {
+				return 0, false
+			}
+			idx = i
+			n++
+		}
+		return idx, n > 0
+	}
+	ia, ok := ld.X.(*ssa.IndexAddr)
+	if !ok {
+		return 0, false
+	}
+	ex, ok := ia.X.(*ssa.Extract)
+	if !ok {
+		return 0, false
+	}
+	c, ok := ex.Tuple.(*ssa.Call)
+	if !ok || !callsNamed(c, callName) {
+		return 0, false
+	}
+	return ex.Index, true
 }
 
 // c04Remove: L5
